@@ -472,66 +472,138 @@ fn one_shot_subset_next(it: &mut SubsetsOf) -> Option<Bitboard> {
     }
     Some(Bitboard::new(b))
 }
-/// callee contracts: "some deterministic function" of the arguments (their own contracts are C07.magic.index_* and C07.walk.*)
-fn index_contract(s: Square, b: Bitboard) -> usize {
-    ((s.idx() as u64 * 1_000_003 + (b.as_u64() % 999_983) * 7) % (TABLE_LEN as u64)) as usize
-}
-fn walk_contract(s: Square, b: Bitboard) -> Bitboard {
-    Bitboard::new(b.as_u64().rotate_left(s.idx() as u32) ^ 0x5555_0000_AAAA_FFFF)
+// The 87,988-entry table itself is REBOUND BY SCOPE to a one-cell recorder: the bodies of the two init functions and of
+// the two lookups are copied verbatim from /repo into `mod gt`, where the name ATTACKS_TABLE resolves to a ghost whose
+// only operations are `[i] = v` (IndexMut: records i, bounds-checked against the real length) and `get_unchecked(i)`
+// (records i, bounds-checked). Any other use of the table in those bodies no longer type-checks (=> anchor lost).
+// (The real array with a symbolic index costs CBMC > 8 GB; the recorder costs nothing.)
+pub mod gt {
+    #![allow(static_mut_refs)]
+    #![allow(unused_unsafe)]
+    use super::{generate_bishop_occupancies, generate_rook_occupancies, SubsetsOf, TABLE_LEN};
+    use crate::chess::bitboard::Bitboard;
+    use crate::chess::square::Square;
+
+    // CALLEE CONTRACTS (rebound by scope): the index functions are "some deterministic function of (square, blockers)
+    // with a value below the table length" (C07.magic.index_in_bounds_*), the ray walks "some deterministic function"
+    // (C07.walk.*); rook and bishop variants are DIFFERENT functions so that a mix-up shows
+    pub fn table_index_rook(s: Square, b: Bitboard) -> usize {
+        (s.idx() as usize) * 1009 + (((b.as_u64() >> 7) & 0xFFF) as usize) * 3 + 1 // < 75,854 <= TABLE_LEN
+    }
+    pub fn table_index_bishop(s: Square, b: Bitboard) -> usize {
+        (s.idx() as usize) * 1201 + (((b.as_u64() >> 11) & 0xFFF) as usize) * 2 + 7 // < 83,861 <= TABLE_LEN
+    }
+    pub mod attacks {
+        use super::{Bitboard, Square};
+        pub fn generate_rook_attacks(s: Square, b: Bitboard) -> Bitboard {
+            Bitboard::new(b.as_u64().rotate_left(s.idx() as u32) ^ 0x5555_0000_AAAA_FFFF)
+        }
+        pub fn generate_bishop_attacks(s: Square, b: Bitboard) -> Bitboard {
+            Bitboard::new(b.as_u64().rotate_right(s.idx() as u32) ^ 0x1234_5678_9ABC_DEF0)
+        }
+    }
+
+    pub static mut G_WRITES: u32 = 0;
+    pub static mut G_WIDX: usize = 0;
+    pub static mut G_READS: u32 = 0;
+    pub static mut G_RIDX: usize = 0;
+    pub struct GhostTable {
+        pub cell: Bitboard,
+    }
+    impl std::ops::Index<usize> for GhostTable {
+        type Output = Bitboard;
+        fn index(&self, i: usize) -> &Bitboard {
+            assert!(i < TABLE_LEN, "table read in bounds");
+            unsafe {
+                G_READS += 1;
+                G_RIDX = i;
+            }
+            &self.cell
+        }
+    }
+    impl std::ops::IndexMut<usize> for GhostTable {
+        fn index_mut(&mut self, i: usize) -> &mut Bitboard {
+            assert!(i < TABLE_LEN, "table write in bounds");
+            unsafe {
+                G_WRITES += 1;
+                G_WIDX = i;
+            }
+            &mut self.cell
+        }
+    }
+    impl GhostTable {
+        /// contract of `<[T]>::get_unchecked`: the index MUST be in bounds (checked here), the cell is returned
+        pub fn get_unchecked(&self, i: usize) -> &Bitboard {
+            assert!(i < TABLE_LEN, "get_unchecked precondition: index in bounds");
+            unsafe {
+                G_READS += 1;
+                G_RIDX = i;
+            }
+            &self.cell
+        }
+    }
+    pub static mut ATTACKS_TABLE: GhostTable = GhostTable { cell: Bitboard::EMPTY };
+
+    //@@ body: chess/movegen/tables/magics.rs :: fn initialise_rook_attacks => initialise_rook_attacks__body pub
+    //@@ body: chess/movegen/tables/magics.rs :: fn initialise_bishop_attacks => initialise_bishop_attacks__body pub
+    //@@ body: chess/movegen/tables/magics.rs :: fn rook_attacks => rook_attacks__body pub
+    //@@ body: chess/movegen/tables/magics.rs :: fn bishop_attacks => bishop_attacks__body pub
 }
 
 fn init_attacks_writes(rook: bool) {
-    let j: usize = kani::any();
-    kani::assume(j < TABLE_LEN);
-    let before = unsafe { ATTACKS_TABLE[j] };
     iter::rec_reset();
-    unsafe { SUBSET_CALLS = 0; }
-    if rook { initialise_rook_attacks() } else { initialise_bishop_attacks() }
+    unsafe {
+        SUBSET_CALLS = 0;
+        gt::G_WRITES = 0;
+    }
+    if rook { gt::initialise_rook_attacks__body() } else { gt::initialise_bishop_attacks__body() }
     let s = iter::yielded(0);
     let b = Bitboard::new(unsafe { SUBSET_YIELDED });
-    kani::cover!(b.any());
+    kani::cover!(b.any() && s.idx() == 27);
     assert!(iter::calls() == 1 && unsafe { SUBSET_CALLS } == 1);
-    // the subsets enumerated are those of the relevant-occupancy mask of the visited square
+    // the squares visited are those of the full board; the subsets enumerated are those of the relevant-occupancy
+    // mask of the visited square
+    assert!(unsafe { iter::REC_SETS[0] } == Bitboard::FULL.as_u64());
     let mask = if rook { generate_rook_occupancies(s) } else { generate_bishop_occupancies(s) };
     assert!(unsafe { SUBSET_OF } == mask.as_u64());
-    let idx = index_contract(s, b);
-    assert!(unsafe { ATTACKS_TABLE[idx] } == walk_contract(s, b));
-    if j != idx {
-        assert!(unsafe { ATTACKS_TABLE[j] } == before);
+    // exactly one cell is written per (square, subset): the one the index function names, with the ray walk
+    let (idx, walk) = if rook {
+        (gt::table_index_rook(s, b), gt::attacks::generate_rook_attacks(s, b))
+    } else {
+        (gt::table_index_bishop(s, b), gt::attacks::generate_bishop_attacks(s, b))
+    };
+    unsafe {
+        assert!(gt::G_WRITES == 1 && gt::G_WIDX == idx);
+        assert!(gt::ATTACKS_TABLE.cell == walk);
     }
 }
 
 //@ obligation: C07.tables.rook_init_writes
-//@ status: experimental
 //@ domain: complete
 //@ functions: chess/movegen/tables/magics.rs::initialise_rook_attacks
-//@ timeout: 1500
-//@ mem_gb: 8
-//@ note: the real init function with its two loops in one-shot contract form (an arbitrary square of the full board, an arbitrary subset of that square's relevant-occupancy mask) and its callees table_index_rook / generate_rook_attacks replaced by arbitrary deterministic functions: the only table cell written is [index(s, b)] and it receives walk(s, b)
-//@ assumes: one-shot iterator contracts (C07.bitboard.square_iterator, C07.magic.subsets_successor) and independence of loop iterations
+//@ timeout: 900
+//@ mem_gb: 6
+//@ note: the body of the real init function (copied verbatim; its two loops in one-shot contract form: an arbitrary square of the FULL board, an arbitrary subset of that square's relevant-occupancy mask; the 87,988-entry table rebound by scope to a one-cell recorder): its callees table_index_rook / generate_rook_attacks replaced by their contracts (arbitrary deterministic functions, distinct for rook and bishop): per (square, subset) exactly ONE cell is written, in bounds, namely [table_index_rook(s, b)], and it receives generate_rook_attacks(s, b). With C07.magic.collisions_* (equal slot => equal walk), C07.magic.mask_irrelevance_* and C07.tables.lookups_read_index this gives lookup(s, occ) == walk(s, occ) for every square and occupancy.
+//@ assumes: one-shot iterator contracts (C07.bitboard.square_iterator, C07.magic.subsets_successor) and independence of loop iterations; the recorder stands for the array (only `[i] = v` is offered)
 #[kani::proof]
 #[kani::unwind(10)]
 #[kani::stub(<crate::chess::bitboard::SquareIterator as std::iter::Iterator>::next, iter::one_shot_square_next)]
 #[kani::stub(<SubsetsOf as std::iter::Iterator>::next, one_shot_subset_next)]
-#[kani::stub(table_index_rook, index_contract)]
-#[kani::stub(crate::chess::movegen::tables::attacks::generate_rook_attacks, walk_contract)]
 fn vk_c07_rook_init_writes() {
     init_attacks_writes(true);
 }
 
 //@ obligation: C07.tables.bishop_init_writes
-//@ status: experimental
 //@ domain: complete
 //@ functions: chess/movegen/tables/magics.rs::initialise_bishop_attacks
-//@ timeout: 1500
-//@ mem_gb: 8
-//@ assumes: one-shot iterator contracts and independence of loop iterations
+//@ timeout: 900
+//@ mem_gb: 6
+//@ note: as C07.tables.rook_init_writes for the bishop half: [table_index_bishop(s, b)] = generate_bishop_attacks(s, b)
+//@ assumes: one-shot iterator contracts and independence of loop iterations; the recorder stands for the array
 #[kani::proof]
 #[kani::unwind(10)]
 #[kani::stub(<crate::chess::bitboard::SquareIterator as std::iter::Iterator>::next, iter::one_shot_square_next)]
 #[kani::stub(<SubsetsOf as std::iter::Iterator>::next, one_shot_subset_next)]
-#[kani::stub(table_index_bishop, index_contract)]
-#[kani::stub(crate::chess::movegen::tables::attacks::generate_bishop_attacks, walk_contract)]
 fn vk_c07_bishop_init_writes() {
     init_attacks_writes(false);
 }
@@ -564,32 +636,29 @@ fn vk_c07_not_masks_init() {
     }
 }
 
-pub static mut LOOKUP_J: usize = 0;
-fn index_is_j(_s: Square, _b: Bitboard) -> usize {
-    unsafe { LOOKUP_J }
-}
-
 //@ obligation: C07.tables.lookups_read_index
-//@ status: experimental
 //@ domain: complete
 //@ functions: chess/movegen/tables/magics.rs::rook_attacks, chess/movegen/tables/magics.rs::bishop_attacks
 //@ timeout: 900
-//@ mem_gb: 8
-//@ note: the two lookups return exactly the table cell at the computed index (index function replaced by "returns an arbitrary in-range J"; cell J holds an arbitrary word)
+//@ mem_gb: 6
+//@ note: bodies of the two lookups (copied verbatim, table rebound to the recorder): each reads exactly ONE cell, the one at table_index_rook(s, occ) resp. table_index_bishop(s, occ), the index satisfies the precondition of get_unchecked given the index functions' contract (value below the table length: C07.magic.index_in_bounds_*), and the cell's content is returned unchanged
+//@ assumes: callee contract of table_index_* (C07.magic.index_in_bounds_*); the recorder stands for the array
 #[kani::proof]
-#[kani::unwind(4)]
-#[kani::stub(table_index_rook, index_is_j)]
-#[kani::stub(table_index_bishop, index_is_j)]
+#[kani::unwind(10)]
 fn vk_c07_lookups_read_index() {
-    let j: usize = kani::any();
-    kani::assume(j < TABLE_LEN);
     let v: u64 = kani::any();
-    unsafe {
-        LOOKUP_J = j;
-        ATTACKS_TABLE[j] = Bitboard::new(v);
-    }
     let s = geo::any_square();
     let occ = Bitboard::new(kani::any());
-    kani::cover!(v != 0);
-    assert!(rook_attacks(s, occ).as_u64() == v && bishop_attacks(s, occ).as_u64() == v);
+    let rook: bool = kani::any();
+    unsafe {
+        gt::G_READS = 0;
+        gt::ATTACKS_TABLE.cell = Bitboard::new(v);
+    }
+    let got = if rook { gt::rook_attacks__body(s, occ) } else { gt::bishop_attacks__body(s, occ) };
+    let idx = if rook { gt::table_index_rook(s, occ) } else { gt::table_index_bishop(s, occ) };
+    kani::cover!(v != 0 && !rook);
+    unsafe {
+        assert!(gt::G_READS == 1 && gt::G_RIDX == idx);
+    }
+    assert!(got.as_u64() == v);
 }
